@@ -247,6 +247,30 @@ Section Attach.
           (Some fid) 0 0 (ff_clen f) (ff_nocache f).
   Definition att_ctx : ctx := logc (inc_calls (logc c (EvBuilder toi WStore)) toi) (EvOpen att_w true).
 
+  (* D48: an empty object is completed by the attach itself, whatever it had cached *)
+  Lemma attach_empty ch sz : ff_tlen f = 0 ->
+    or_attach E fid files ioti (Ocache toi max ch sz) c = (true, fst (complete (att_obj [] 0) att_ctx), snd (complete (att_obj [] 0) att_ctx)).
+  Proof.
+    intros Hz.
+    unfold or_attach, Ocache. prj. rewrite Hfind, Hoti. cbv iota beta.
+    unfold init_partition at 1. unfold nb_block at 1. prj.
+    change (0 <? 0 + N.of_nat (length (@nil bdec))) with false. cbv iota beta. rewrite Hpart. cbv iota beta.
+    unfold init_writer. prj. rewrite Hbld. cbv iota beta zeta. rewrite Hopen. cbn [negb]. prj.
+    rewrite Hz. cbv iota beta.
+    match goal with |- context [complete ?x ?y] => set (o3 := x); set (c3 := y) end.
+    assert (Ec : complete o3 c3 = complete (att_obj [] 0) att_ctx).
+    { unfold complete, o3, c3, att_obj, att_ctx, att_w, att_md5chk. prj. rewrite Hz. reflexivity. }
+    rewrite Ec.
+    pose proof (complete_closed (att_obj [] 0) att_ctx) as K.
+    destruct (complete (att_obj [] 0) att_ctx) as [o4 c4]. cbn [fst snd] in *.
+    destruct K as (K1 & K2 & K3 & K4).
+    assert (P : push_from_cache E o4 c4 = (o4, c4)) by (apply pfc_nil; assumption).
+    rewrite P. rewrite (wb_closedw E _ 0 o4 c4 K4). rewrite P. reflexivity.
+  Qed.
+
+  (* from here on: the object is not empty *)
+  Hypothesis Hne : ff_tlen f <> 0.
+
   Lemma attach_unfold ch sz :
     or_attach E fid files ioti (Ocache toi max ch sz) c =
     (let (o4, c4) := push_from_cache E (att_obj ch sz) att_ctx in
@@ -260,7 +284,7 @@ Section Attach.
     unfold init_partition at 1. unfold nb_block at 1. prj.
     change (0 <? 0 + N.of_nat (length (@nil bdec))) with false. cbv iota beta. rewrite Hpart. cbv iota beta.
     unfold init_writer. prj. rewrite Hbld. cbv iota beta zeta. rewrite Hopen. cbn [negb]. prj.
-    reflexivity.
+    d48_skip Hne. reflexivity.
   Qed.
 
   Lemma att_obj_wc ch sz : att_obj ch sz = wc ch sz (att_obj [] 0).
@@ -487,11 +511,12 @@ Section NoCodeObj.
     assert (Hp' : block_partitioning (ro_b oti) (ff_tlen f) (ro_e oti) = (al, as_, nal, n)) by (rewrite Htl; exact Hpart).
     assert (A1' : e_builder E toi (ncalls c toi) = WStore) by (rewrite Hn0; exact A1).
     assert (A2' : e_open_ok E (toi, ncalls c toi) = true) by (rewrite Hn0; exact A2).
-    pose proof (attach_fresh E fid files inst f toi max oti al as_ nal n c Hfind Hfo Hp' A1' A2') as Fr.
+    assert (Hne : ff_tlen f <> 0) by (rewrite Htl; lia).
+    pose proof (attach_fresh E fid files inst f toi max oti al as_ nal n c Hfind Hfo Hp' A1' A2' Hne) as Fr.
     rewrite Hat in Fr. injection Fr as -> ->.
     exists (att_obj E fid f toi max oti al as_ nal n c [] 0), (att_ctx toi c).
     split; [exact Hat|]. split; [exact S0|]. split; [exact Hnc|].
-    apply (attach_cached E fid files inst f toi max oti al as_ nal n c Hfind Hfo Hp' A1' A2'
+    apply (attach_cached E fid files inst f toi max oti al as_ nal n c Hfind Hfo Hp' A1' A2' Hne
              StructN genn nc_inv_state nc_inv_push nc_inv_step nc_inv_cache nc_inv_wb0 S0).
     - left. exact (C02Full.n_pos _ _ _ _ _ _ _ Hb He HL Hpart).
     - exact G.
@@ -568,54 +593,34 @@ Section EmptyObj.
   Lemma e_part : block_partitioning (ro_b oti) (ff_tlen f) (ro_e oti) = (0, 0, 0, 0).
   Proof. rewrite Htl. apply partition_empty. Qed.
 
-  Lemma e_push p : or_push E p A0 C0 = pbstep E p A0 C0.
+  (* D48: the attach completes the empty object at once, whatever was cached; no packet is needed any more,
+     and a packet that follows finds the object closed *)
+  Lemma e_attach ch sz :
+    or_attach E fid files inst (Ocache toi max ch sz) ctx0 =
+    (true, fst (complete A0 C0), logc C0 (EvComplete w)) /\ r_state (fst (complete A0 C0)) = Completed.
   Proof.
-    unfold or_push, att_obj. prj. rewrite Htl. change (0 =? 0) with true. cbv iota beta.
-    change (N.to_nat (N.min 0 2048)) with 0%nat. cbn [repeat].
-    unfold init_partition at 1. unfold nb_block at 1. prj. change (0 <? 0 + N.of_nat (length (@nil bdec))) with false.
-    cbv iota beta. rewrite partition_empty. cbv iota beta. change (N.to_nat (N.min 0 2048)) with 0%nat. cbn [repeat].
-    unfold init_writer. prj. cbv iota beta.
-    unfold push_from_cache, cache_replay_blocked, nb_block. prj. change (0 + N.of_nat (length (@nil bdec)) =? 0) with true.
-    cbn [negb andb List.rev drain_cache]. prj.
-    unfold pbstep. reflexivity.
+    rewrite (attach_empty E fid files inst f toi max oti 0 0 0 0 ctx0 Hfind Hfo e_part Hbld Hopen ch sz Htl).
+    split; reflexivity.
   Qed.
 
-  Lemma e_step p : goodE p -> exists o2, or_push E p A0 C0 = (o2, logc C0 (EvComplete (toi, ncalls ctx0 toi))) /\ r_state o2 = Completed.
+  (* stronger than before the repair: no hypothesis on the packets after the cached ones, none needed at all *)
+  Theorem empty_cached_delivers_d48 pre post :
+    Forall cacheable pre -> cache_fits max 0 pre = true ->
+    let (o, c) := receive_cached E fid files inst toi max pre post in
+    r_state o = Completed /\ c_log c = [EvBuilder toi WStore; EvOpen w true; EvComplete w].
   Proof.
-    intros G. rewrite e_push. unfold pbstep, push_to_block, push_to_block2, att_obj. prj. rewrite Htl.
-    unfold goodE in G. destruct (a_pid_with (ro_fec oti) p) as [[[sbn esi] sbl]|]; [|congruence].
-    change (0 =? 0) with true. cbv iota beta. unfold complete. prj. cbn [set_state clear_bufs set_wstate]. prj.
-    destruct (a_close_obj p); eexists; split; reflexivity.
+    intros Fc Hf.
+    unfold receive_cached. change (or_new toi max) with (Ocache toi max [] 0) at 1.
+    rewrite (run_cache E toi max Htoi pre [] 0 ctx0 Fc Hf). cbn [app].
+    destruct (e_attach pre (0 + sumlen pre)) as [-> Hs].
+    rewrite C02Full.run_closed by (rewrite Hs; discriminate). split; [exact Hs|reflexivity].
   Qed.
-
-  Lemma e_inv_step o c p : InvE o c -> goodE p -> let (o2, c2) := or_push E p o c in InvE o2 c2 \/ r_state o2 <> Receiving.
-  Proof. intros [-> ->] G. destruct (e_step p G) as (o2 & Eq & H). rewrite Eq. right. congruence. Qed.
 
   Theorem empty_cached_delivers pre post :
     Forall cacheable pre -> cache_fits max 0 pre = true -> Forall goodE (pre ++ post) -> pre ++ post <> [] ->
     let (o, c) := receive_cached E fid files inst toi max pre post in
     r_state o = Completed /\ c_log c = [EvBuilder toi WStore; EvOpen w true; EvComplete w].
-  Proof.
-    intros Fc Hf G Hne. apply Forall_app in G. destruct G as [G1 G2].
-    unfold receive_cached. change (or_new toi max) with (Ocache toi max [] 0) at 1.
-    rewrite (run_cache E toi max Htoi pre [] 0 ctx0 Fc Hf). cbn [app].
-    rewrite (attach_cached E fid files inst f toi max oti 0 0 0 0 ctx0 Hfind Hfo e_part Hbld Hopen InvE goodE).
-    - rewrite <- surjective_pairing, <- run_app.
-      assert (Gl : Forall goodE (pre ++ post)) by (apply Forall_app; split; [exact G1|exact G2]).
-      destruct (pre ++ post) as [|p l] eqn:El.
-      { exfalso. apply Hne. reflexivity. }
-      unfold C02Full.run. cbn [fold_left fst snd]. destruct (e_step p (Forall_inv Gl)) as (o2 & Eq & H). rewrite Eq.
-      match goal with |- context [fold_left ?g l ?x] => change (fold_left g l x) with (C02Full.run E l x) end.
-      rewrite C02Full.run_closed by congruence. split; [exact H|reflexivity].
-    - intros o c [-> _]. reflexivity.
-    - intros o c p [-> ->]. apply e_push.
-    - exact e_inv_step.
-    - intros o c [-> _]. split; reflexivity.
-    - intros o c [-> ->]. unfold att_obj. prj. rewrite Htl. reflexivity.
-    - split; reflexivity.
-    - right. exact Htl.
-    - exact G1.
-  Qed.
+  Proof. intros Fc Hf _ _. apply empty_cached_delivers_d48; assumption. Qed.
 End EmptyObj.
 
 (* ================= C. the receiver level, over the object-level interface of C02SessionRS ================= *)
@@ -733,11 +738,13 @@ Section CacheIface.
     assert (Hn0 : ncalls c toi = 0%nat) by (unfold ncalls; destruct Bl as [-> _]; reflexivity).
     assert (A1' : e_builder E toi (ncalls c toi) = WStore) by (rewrite Hn0; exact A1).
     assert (A2' : e_open_ok E (toi, ncalls c toi) = true) by (rewrite Hn0; exact A2).
-    pose proof (attach_fresh E fid (fi_files inst) (fi_oti inst) f toi max oti al as_ nal n c Hfind Hfo Hpart A1' A2') as Fr.
+    assert (Hne : ff_tlen f <> 0).
+    { intros Z. pose proof Hpart as Hp0. rewrite Z, partition_empty in Hp0. inversion Hp0. lia. }
+    pose proof (attach_fresh E fid (fi_files inst) (fi_oti inst) f toi max oti al as_ nal n c Hfind Hfo Hpart A1' A2' Hne) as Fr.
     rewrite Hat in Fr. injection Fr as Eo Ec.
     assert (G : Forall gen pre).
     { eapply Forall_impl; [|exact Fp]. intros p (_ & _ & H2). exact H2. }
-    pose proof (attach_cached E fid (fi_files inst) (fi_oti inst) f toi max oti al as_ nal n c Hfind Hfo Hpart A1' A2'
+    pose proof (attach_cached E fid (fi_files inst) (fi_oti inst) f toi max oti al as_ nal n c Hfind Hfo Hpart A1' A2' Hne
                   SP gen I_state K_push K_step K_cache K_wb0) as AC.
     rewrite <- Eo, <- Ec in AC. rewrite (AC S0 (or_introl Hn) pre (sumlen pre) G); clear AC.
     pose proof (c_run_live pre o0 c0 [] S0 L0 G Gcl) as R.
@@ -1192,9 +1199,10 @@ Section OracleObj.
     destruct (C02RS.attach_struct E oti content rep w toi md5 max al as_ nal n He Hb HL Hu64 Hpart fid files inst f
                 eq_refl Hfind Hce Hfo Htl Hmd5 A1 A2) as (o0 & c0 & Hat & S0).
     assert (Hp' : block_partitioning (ro_b oti) (ff_tlen f) (ro_e oti) = (al, as_, nal, n)) by (rewrite Htl; exact Hpart).
-    pose proof (attach_fresh E fid files inst f toi max oti al as_ nal n ctx0 Hfind Hfo Hp' A1 A2) as Fr.
+    assert (Hne : ff_tlen f <> 0) by (rewrite Htl; lia).
+    pose proof (attach_fresh E fid files inst f toi max oti al as_ nal n ctx0 Hfind Hfo Hp' A1 A2 Hne) as Fr.
     rewrite Hat in Fr. injection Fr as Eo Ec.
-    pose proof (attach_cached E fid files inst f toi max oti al as_ nal n ctx0 Hfind Hfo Hp' A1 A2
+    pose proof (attach_cached E fid files inst f toi max oti al as_ nal n ctx0 Hfind Hfo Hp' A1 A2 Hne
                   StructR genR or_inv_state or_inv_push or_inv_step or_inv_cache or_inv_wb0) as AC.
     rewrite <- Eo, <- Ec in AC.
     rewrite (AC S0 (or_introl (C02Full.n_pos _ _ _ _ _ _ _ Hb He HL Hpart)) pre (0 + sumlen pre) G).
@@ -1274,11 +1282,12 @@ Proof.
   destruct P as (P1 & P2 & _). split; assumption.
 Qed.
 
-(* the empty object: one packet (payload id (0,0), no payload) cached before the FDT entry, or received after it *)
+(* the empty object: one packet (payload id (0,0), no payload) cached before the FDT entry, or received after it;
+   since the D48 repair the attach itself completes it (third line: before the repair (Receiving, [CallOpen true])) *)
 Example ex_cached_empty_object :
   summary 7 (receive_cached env_ok 1 ex0_files None 7 1000 [src_pkt 7 0 0 false []] []) = (Completed, [CallOpen true; CallComplete])
   /\ summary 7 (receive_cached env_ok 1 ex0_files None 7 1000 [] [src_pkt 7 0 0 true []]) = (Completed, [CallOpen true; CallComplete])
-  /\ summary 7 (receive_cached env_ok 1 ex0_files None 7 1000 [] []) = (Receiving, [CallOpen true]).
+  /\ summary 7 (receive_cached env_ok 1 ex0_files None 7 1000 [] []) = (Completed, [CallOpen true; CallComplete]).
 Proof. vm_compute. repeat split. Qed.
 
 (* the receiver level (toy session of C02Session.v, cf_max_cache = 1000): computed, and by the theorem *)
